@@ -266,6 +266,11 @@ impl Case {
     }
     /// absolute tolerance for coordinates computed in f64 / f32
     pub fn tol(&self, f32_run: bool) -> f64 {
+        if self.family == "D6-shallow" {
+            // long thin shapes: the usual relative tolerance (1e-9 of the extent) would exceed the short dimension.
+            // Inputs are exact and a computed crossing is off by a few ulps of the long coordinate; allow 64 ulps.
+            return self.scale() * if f32_run { 64.0 * (f32::EPSILON as f64) } else { 64.0 * f64::EPSILON };
+        }
         if f32_run {
             if self.exact_f32 {
                 0.0
@@ -829,6 +834,84 @@ pub fn self_test(case: &Case) -> Result<(), String> {
     Ok(())
 }
 
+/// D6: long polygons whose facing edges cross at a very shallow angle (slopes +m/k and -m'/k, k = 2^j, j up to 28) with
+/// every coordinate, every intersection point and every intermediate product of the library's intersection arithmetic
+/// of the *first* cut exactly representable (k a power of two, m + m' in {2, 4}, offsets multiples of 16). Later cuts
+/// act on sub-segments whose lengths are no powers of two, so the family is held to a (tight, family-specific)
+/// tolerance rather than to exact equality; the crossing angle is far below anything the other float families contain. Random axis
+/// symmetries / transposition (near-vertical shallow crossings) and an exact translation are applied.
+/// For j <= 14 the case is also representable in f32.
+pub fn gen_shallow(rng: &mut Rng) -> Case {
+    gen_shallow_upto(rng, 28)
+}
+
+/// as `gen_shallow` with k = 2^j, j <= max_j (14 keeps everything representable in f32)
+pub fn gen_shallow_upto(rng: &mut Rng, max_j: i64) -> Case {
+    let j = rng.range(2, max_j);
+    let k = (2.0f64).powi(j as i32);
+    let (m, m2) = [(1.0, 1.0), (1.0, 3.0), (3.0, 1.0), (2.0, 2.0)][rng.below(4) as usize];
+    let c = rng.range(1, 4) as f64; // height of the clipping's top edge at its left end
+    let x0 = 16.0 * rng.range(1, 4) as f64;
+    // fat bodies so that most faces are wide compared with the witness clearance; only the wedge between the two
+    // shallow edges is thin
+    let big = if j >= 6 { (2.0f64).powi((j - 3) as i32) } else { 8.0 };
+    let h = if rng.below(2) == 0 { 5.0 + rng.range(0, 3) as f64 } else { big };
+    let d = if rng.below(2) == 0 { 4.0 } else { big };
+    // subject: bottom edge y = m x / k from (0,0) to (k,m); clipping: top edge from (x0,c) to (k+x0, c-m2)
+    let mut a: Ring = vec![(0.0, 0.0), (k, m), (k, m + h), (0.0, m + h)];
+    let mut b: Ring = vec![(x0, -d), (k + x0, -d), (k + x0, c - m2), (x0, c)];
+    if rng.below(3) == 0 {
+        // slanted top for the subject as well (parallel to its bottom): two shallow crossings with the clipping's
+        // vertical sides
+        a = vec![(0.0, 0.0), (k, m), (k, m + h), (0.0, h)];
+    }
+    if rng.below(4) == 0 {
+        // a second shallow edge pair: clipping bottom slanted the other way
+        b[0] = (x0, -d);
+        b[1] = (k + x0, -d - m2);
+    }
+    let sym = rng.below(8);
+    let (tx, ty) = if rng.below(2) == 0 { (0.0, 0.0) } else { (16.0 * rng.range(-64, 64) as f64, 16.0 * rng.range(-64, 64) as f64) };
+    let map = |p: Pt| -> Pt {
+        let (mut x, mut y) = p;
+        if sym & 1 != 0 {
+            x = -x;
+        }
+        if sym & 2 != 0 {
+            y = -y;
+        }
+        if sym & 4 != 0 {
+            std::mem::swap(&mut x, &mut y);
+        }
+        (x + tx, y + ty)
+    };
+    let fix = |r: &Ring| -> Ring {
+        let mut v: Ring = r.iter().map(|p| map(*p)).collect();
+        if ring_area2(&v) < 0.0 {
+            v.reverse();
+        }
+        let first = v[0];
+        v.push(first);
+        v
+    };
+    let (ra, rb) = (fix(&a), fix(&b));
+    let swap = rng.below(2) == 0;
+    let (pa, pb): (MP, MP) = if swap { (vec![vec![rb]], vec![vec![ra]]) } else { (vec![vec![ra]], vec![vec![rb]]) };
+    let f32_exact = j <= 14 && rings(&pa).chain(rings(&pb)).all(|r| r.iter().all(|p| round_f32(p.0) == p.0 && round_f32(p.1) == p.1));
+    Case {
+        family: "D6-shallow",
+        desc: format!("shallow exact crossing k=2^{} slopes=({}/k,-{}/k) c={} x0={} sym={} shift=({},{})", j, m, m2, c, x0, sym, tx, ty),
+        a: pa,
+        b: pb,
+        exact: false,
+        exact_f32: false,
+        integer: false,
+        f32_ok: f32_exact,
+        self_crossing: false,
+        faces: vec![],
+    }
+}
+
 /// The mixed family stream used by most whole-operation properties.
 pub fn gen_mixed(rng: &mut Rng, size: usize, rejected: &mut u64) -> Case {
     // size: 1 = quick, larger = thorough
@@ -837,7 +920,8 @@ pub fn gen_mixed(rng: &mut Rng, size: usize, rejected: &mut u64) -> Case {
         1 => (7, 4, 5, 12),
         _ => (12, 7, 8, 28),
     };
-    match rng.below(16) {
+    match rng.below(17) {
+        16 => gen_shallow(rng),
         0..=4 => gen_rect(rng, grid),
         5..=9 => gen_lattice(rng, lat),
         10..=11 => {
